@@ -305,6 +305,14 @@ def translate() -> tuple[str, dict]:
         if isinstance(n, ast.Name) and n.id == 'get_arch_filename' and isinstance(n.ctx, ast.Load):
             if not any(isinstance(c, ast.Call) and c.func is n for c in ast.walk(tree)):
                 raise TranslateError(f'line {n.lineno}: get_arch_filename used other than by a direct call')
+    # the read side by symbolic execution of FileInfo.read / verify (translate/c13_place.py): for an entry stored in an archive the bytes
+    # come from open(os.path.join(<vpk>.folder, get_arch_filename(<prefix>, self.arch_index)), 'rb'), seek(self.offset), read(self.arch_len)
+    from translate import c13_place
+    rd = c13_place.analyse_readers(nm.finfo)
+    rd_ok = all(r['read'] == r['verify'] == ('RNone' if r['alen_zero'] else 'RFooter' if r['idx_none'] else 'RArch') for r in rd['rows'])
+    verify_delegates = not sites['verify'] and rd_ok      # verify() = checksum(self.read()) == self.crc: its site is read()'s
+    if verify_delegates:
+        sites['verify'] = list(sites['read'])
     for k in ('read', 'verify', 'write'):
         if len(sites[k]) != 1:
             raise TranslateError(f'FileInfo.{k}: expected exactly one get_arch_filename call, found {len(sites[k])}')
@@ -328,7 +336,7 @@ def translate() -> tuple[str, dict]:
 
     w_expr, w_idx = site(fwrite, sites['write'][0])
     r_expr, r_idx = site(fread, sites['read'][0])
-    v_expr, v_idx = site(fverify, sites['verify'][0])
+    v_expr, v_idx = site(fread if verify_delegates else fverify, sites['verify'][0])
 
     # index argument: the index written to is the one stored in the entry, the one read is the stored one
     # the write side by symbolic execution of FileInfo.write (translate/c13_place.py): the archive opened is
@@ -339,7 +347,7 @@ def translate() -> tuple[str, dict]:
     arch_rows = [r for r in pw['rows'] if r['dest'] == 'DArch']
     w_ok = bool(arch_rows) and all(r['off'] == 'OArchEnd' and not r['stored_none'] and r['exact'] for r in arch_rows) and \
         not any(r['dest'] == 'DOther' for r in pw['rows'])
-    index_args_ok = pw['facts']['index_is_arg'] and w_ok and r_idx == 'self.arch_index' and v_idx == 'self.arch_index'
+    index_args_ok = pw['facts']['index_is_arg'] and w_ok and rd['facts']['index_is_stored'] and rd_ok
 
     # the file that is opened: os.path.join(<vpk>.folder, <the variable holding the name>)
     def opened(fn: ast.FunctionDef, call: ast.Call):
@@ -356,11 +364,12 @@ def translate() -> tuple[str, dict]:
     jr, mr = opened(fread, sites['read'][0])
     jv, mv = opened(fverify, sites['verify'][0])
     jw, mw = pw['facts']['join_folder'], ('ab' if pw['facts']['mode_append'] else None)
+    jr = jv = rd['facts']['join_folder']
+    mr = mv = 'rb' if rd['facts']['mode_rb'] else None
     join_ok = bool(jw and jr and jv)
     src_r = [ast.unparse(s) for s in ast.walk(fread) if isinstance(s, ast.stmt)]
     src_v = [ast.unparse(s) for s in ast.walk(fverify) if isinstance(s, ast.stmt)]
-    append_ok = mw == 'ab' and w_ok \
-        and mr == 'rb' and mv == 'rb' and 'data.seek(self.offset)' in src_r and 'data.seek(self.offset)' in src_v
+    append_ok = mw == 'ab' and w_ok and mr == 'rb' and mv == 'rb' and rd_ok
 
     # script_write: the names only feed os.path.exists / os.stat
     if script:
